@@ -591,6 +591,117 @@ pub fn walks(prop: &str, seed: u64, count: usize, nsyms: usize, rep: &mut Report
     }
 }
 
+/// Replay of MC_LzmaHeader: every exported (props byte, dictionary class, size-field class, option,
+/// supplied-size class, truncation) is instantiated with a real payload coded under the lc/lp/pb TLC derived
+/// from the props byte; TLC's reading of the header is cross-checked with the byte-level oracle, and the
+/// one-shot and streaming decoders are compared with the oracle (verdict, bytes, input consumed).
+pub fn replay_header_export(path: &str, prop: &str, seed: u64, rep: &mut Report) {
+    let lines = tlc_json_lines(path, "HDR");
+    rep.add("tlc_headers_in_export", lines.len() as u64);
+    let prog = vec![Sym::Lit { b: b'a' }, Sym::Lit { b: b'b' }, Sym::Match { d: 1, n: 4 }, Sym::Lit { b: b'c' }];
+    let t: u64 = 7;
+    let inst = |class: &str| -> Option<u64> {
+        match class {
+            "none" => None,
+            "zero" => Some(0),
+            "true" => Some(t),
+            "truePlus1" => Some(t + 1),
+            _ => Some(1 << 40),
+        }
+    };
+    let mut n = 0usize;
+    for l in &lines {
+        let v: Value = match serde_json::from_str(l) {
+            Ok(v) => v,
+            Err(e) => {
+                rep.tool_error(format!("bad HDR line: {}", e));
+                continue;
+            }
+        };
+        n += 1;
+        let c = &v["c"];
+        let r = &v["r"];
+        let props_b = c["props"].as_u64().unwrap() as u8;
+        let dict = c["dict"].as_u64().unwrap() as u32;
+        let field = inst(c["field"].as_str().unwrap());
+        let provided = inst(c["provided"].as_str().unwrap());
+        let avail = c["avail"].as_u64().unwrap() as usize;
+        let opt = match c["opt"].as_str().unwrap() {
+            "ReadFromHeader" => Opt::ReadFromHeader,
+            "ReadHeaderButUseProvided" => Opt::ReadHeaderButUseProvided { n: provided },
+            _ => Opt::UseProvided { n: provided },
+        };
+        let need = opt.header_len();
+        // header bytes
+        let mut hdr = vec![props_b];
+        hdr.extend_from_slice(&dict.to_le_bytes());
+        if need == 13 {
+            hdr.extend_from_slice(&field.unwrap_or(u64::MAX).to_le_bytes());
+        }
+        let mut data = hdr.clone();
+        let rv = r["v"].as_str().unwrap_or("");
+        if avail < need {
+            data.truncate(avail);
+        } else if let Some(p) = Props::from_byte(props_b) {
+            let size_eff = crate::oracle::size_in_effect(opt, field);
+            let mut pr = prog.clone();
+            if size_eff.is_none() {
+                pr.push(Sym::Eos);
+            }
+            data.extend_from_slice(&coding::encode_program(&pr, p).payload);
+            // TLC's reading of the header vs the oracle's
+            if rv == "ok" {
+                let same = r["lc"].as_u64() == Some(p.lc as u64) && r["lp"].as_u64() == Some(p.lp as u64) && r["pb"].as_u64() == Some(p.pb as u64)
+                    && r["dict"].as_u64() == Some((dict as u64).max(4096))
+                    && inst(r["size"].as_str().unwrap_or("none")) == size_eff
+                    && r["consumed"].as_u64() == Some(need as u64);
+                if !same {
+                    rep.tool_error(format!("LzmaHeader.tla and the byte-level oracle read the header differently: {}", l));
+                    continue;
+                }
+            }
+        } else {
+            data.extend_from_slice(&[0, 0, 0, 0, 0, 0]);
+        }
+        let e = expect_lzma(&data, opt, None);
+        let tlc_err = rv != "ok";
+        if tlc_err && e.v != Exp::Err {
+            rep.tool_error(format!("LzmaHeader.tla says {} but the oracle accepts: {}", rv, l));
+            continue;
+        }
+        for api_name in ["oneshot", "stream"] {
+            let mut cuts = vec![];
+            if api_name == "stream" {
+                cuts = vec![[1usize, 4, 5, 12, 13][(n + seed as usize) % 5].min(data.len())];
+            }
+            let case = LzmaCase {
+                api: api_name.into(),
+                props: Props::from_byte(props_b).unwrap_or(Props { lc: 0, lp: 0, pb: 0 }),
+                dict,
+                prog: vec![],
+                size_field: field,
+                opt,
+                raw_size: None,
+                memlimit: None,
+                trailing: String::new(),
+                truncate: None,
+                cuts,
+                data_hex: Some(hex(&data)),
+                spec: None,
+                origin: "tlc:MC_LzmaHeader".into(),
+            };
+            // zero input to Stream is the documented exception of C05, not a header case
+            if api_name == "stream" && data.is_empty() {
+                continue;
+            }
+            let ok = check_case_hdr(&case, prop, rep);
+            if ok && rep.samples.len() < 4 && n % 4001 == 1 {
+                rep.sample(json!({"origin": case.origin, "header": c, "tlc_reading": r, "api": api_name}));
+            }
+        }
+    }
+}
+
 /// C08: option x header-size-field x end-marker x caller-supplied-size matrix on the one-shot and
 /// the streaming API (the raw decoder is covered by the TLC export).
 pub fn options_matrix(prop: &str, seed: u64, nprogs: usize, rep: &mut Report) {
